@@ -202,6 +202,12 @@ class FieldData:
             "cannot be renamed to {}\n".format(value)+
             "Line or ID not unique\n"+
             "Matching previous line: {}".format(str(previous)))
+        elif previous is not None and \
+            any(ref is self for v in previous._refs.values() for ref in v):
+          raise gfapy.ValueError(
+            "Line: {}\n".format(str(self))+
+            "cannot be renamed to {}\n".format(value)+
+            "The line would refer to itself")
       self._gfa._unregister_line(self)
     if value is None:
       if fieldname in self._data:
